@@ -2,6 +2,7 @@ package checks
 
 import (
 	"fmt"
+	"go/token"
 	"go/types"
 	"sort"
 	"strings"
@@ -184,11 +185,20 @@ func checkC24(c *Ctx) *report.Result {
 	r.Extra["reachable_repo_functions"] = len(fns)
 	r.Extra["reachable_instructions"] = nInstr
 	r.Sample(map[string]interface{}{"reachable_functions": len(fns), "first": fnName(fns[0]), "last": fnName(fns[len(fns)-1])})
-	// package-init-only nondeterminism is reported as information
+	// package initialisation runs once per process, but its result (the tables every instance reads) must not depend
+	// on map iteration order either: a map loop there may only do per-key work - no value carried from one
+	// iteration to the next, no variable declared outside the loop that the body both writes and reads
+	r.Rule("N4", "map iterations during package initialisation are order-independent: no loop-carried value and no outer variable both written and read in the body (each iteration works on its own key's slot)")
 	for _, fn := range c.P.Funcs {
 		if !reach[fn] && isRepoFn(fn) && c.W.ReachNew[fn] {
 			for _, nd := range nondetConstructs(fn, hostSide) {
-				r.Sample(map[string]interface{}{"package_init_only": fnName(fn), "construct": nd.What, "why_allowed": "runs once per process before any instance exists and writes keyed slots of tables that are never written afterwards (checked by N3)"})
+				rng, isRange := nd.At.(*ssa.Range)
+				if !isRange {
+					r.Sample(map[string]interface{}{"package_init_only": fnName(fn), "construct": nd.What})
+					continue
+				}
+				carried := mapLoopCarries(rng)
+				r.Ob("N4", len(carried) == 0, fnName(fn)+": map iteration during package initialisation is order-independent", c.pos(rng), fmt.Sprintf("state carried between iterations: %v; the tables built here would differ from process to process", carried))
 			}
 		}
 	}
@@ -251,4 +261,102 @@ func checkC24(c *Ctx) *report.Result {
 		r.Fail("unresolved", "N0", "self-test package", "", "the positive example package was not loaded")
 	}
 	return r
+}
+
+// mapLoopCarries lists what a range-over-map loop carries from one iteration to the next: SSA values merged at the
+// loop header, and variables allocated outside the loop (or package-level) that the loop body both writes
+// (directly, through a field/element address, or by passing their address to a call) and reads.
+func mapLoopCarries(rng *ssa.Range) []string {
+	fn := rng.Parent()
+	// the header is the block of the Next instruction that consumes this iterator
+	var header *ssa.BasicBlock
+	for _, ref := range *rng.Referrers() {
+		if nx, ok := ref.(*ssa.Next); ok {
+			header = nx.Block()
+		}
+	}
+	if header == nil {
+		return []string{"loop header not found"}
+	}
+	// natural loop: blocks dominated by the header from which the header is reachable
+	inLoop := map[*ssa.BasicBlock]bool{}
+	var reachesHeader func(b *ssa.BasicBlock, seen map[*ssa.BasicBlock]bool) bool
+	reachesHeader = func(b *ssa.BasicBlock, seen map[*ssa.BasicBlock]bool) bool {
+		if seen[b] {
+			return false
+		}
+		seen[b] = true
+		for _, s := range b.Succs {
+			if s == header || (header.Dominates(s) && reachesHeader(s, seen)) {
+				return true
+			}
+		}
+		return false
+	}
+	for _, b := range fn.Blocks {
+		if b == header || (header.Dominates(b) && reachesHeader(b, map[*ssa.BasicBlock]bool{})) {
+			inLoop[b] = true
+		}
+	}
+	var out []string
+	for _, ins := range header.Instrs {
+		if phi, ok := ins.(*ssa.Phi); ok {
+			out = append(out, "value "+phi.Comment+" merged at the loop header")
+		}
+	}
+	root := func(v ssa.Value) ssa.Value {
+		for {
+			switch x := v.(type) {
+			case *ssa.FieldAddr:
+				v = x.X
+			case *ssa.IndexAddr:
+				v = x.X
+			default:
+				return v
+			}
+		}
+	}
+	outside := func(v ssa.Value) (string, bool) {
+		switch x := v.(type) {
+		case *ssa.Alloc:
+			if !inLoop[x.Block()] {
+				return "variable " + x.Comment, true
+			}
+		case *ssa.Global:
+			return "package-level " + x.Name(), true
+		}
+		return "", false
+	}
+	written, read := map[string]bool{}, map[string]bool{}
+	for b := range inLoop {
+		for _, ins := range b.Instrs {
+			switch x := ins.(type) {
+			case *ssa.Store:
+				if name, ok := outside(root(x.Addr)); ok {
+					written[name] = true
+				}
+			case *ssa.UnOp:
+				if x.Op == token.MUL {
+					if name, ok := outside(root(x.X)); ok {
+						read[name] = true
+					}
+				}
+			case ssa.CallInstruction:
+				for _, a := range x.Common().Args {
+					if name, ok := outside(root(a)); ok {
+						if _, isAlloc := root(a).(*ssa.Alloc); isAlloc {
+							written[name], read[name] = true, true // its address escapes into the callee
+						}
+					}
+				}
+			}
+		}
+	}
+	for name := range written {
+		if read[name] {
+			out = append(out, name+" written and read in the loop body")
+		}
+	}
+	sort.Strings(out)
+	return out
 }
